@@ -103,7 +103,7 @@ func wrongTyped(r *rand.Rand) (value.Value, string) {
 }
 
 func c14(c *wk.Ctx) {
-	c.Note("rule", "each history: a freshly generated property level (int32, validator refuses negative values) on a Probe object; 3-6 clients over 1-3 sessions plus the service itself issue <= 60 (200 thorough) operations: GetLevel, SetLevel(unique valid value), SetLevel(negative), generic setProperty(level, wrongly typed value: string, long, float, uint, bool, list), service-side UpdateLevel(unique value / negative); one or two subscribers (SubscribeLevel) stay subscribed; the service keeps updating the object's other property (gain) all along. Call/return stamps come from one logical clock at the client boundary. Oracle: porcupine checks the history against a register model (accepted set/update -> state, invalid or wrongly typed write -> must be an error and state unchanged, get -> current state without error); a valid write that is refused is a violation; each continuously subscribed reader must receive exactly the set of accepted values, each once (missing decided by the quiescence detector). Stream faulty-link: 2-5 subscribers (some cancel and subscribe again first; in a third of the histories the object's generic statistics are switched on) on own connections to a stand-alone server whose listener is wrapped by the harness; the link towards one of them starts refusing writes (reads stay open, the server sees no disconnection), or stalls in the middle of one fan-out while a subscriber registered after it cancels; every subscriber also listens to the signal tick, which the service emits now and then; a sequential mix of client writes, service-side updates (some of them writing the value that is already stored), refused writes and reads follows (in a third of the histories no link fails), possibly with a subscriber joining: every subscriber on a healthy link receives exactly the accepted values, in order; reads return the last accepted value (the outcome reported to the writer is not judged). Stream wide: the properties label (str) and spot (a structure) hold unique values of 10 B - 40 KiB written concurrently by 2-3 clients and 1-3 goroutines of the service over unix / tcp, with subscribers on own connections and a reader: valid writes accepted, refused ones report an error, reads return an intact written value, the final read is some writer's last accepted value, every subscriber gets each accepted value once, intact. Distinct non-trivial = distinct histories with at least two overlapping operations and one accepted write.")
+	c.Note("rule", "each history: a freshly generated property level (int32, validator refuses negative values) on a Probe object; 3-6 clients over 1-3 sessions plus the service itself issue <= 60 (200 thorough) operations: GetLevel, SetLevel(unique valid value), SetLevel(negative), generic setProperty(level - by name or by numeric id -, wrongly typed value: string, long, float, uint, bool, list; or a valid value by id), service-side UpdateLevel(unique value / negative); one or two subscribers (SubscribeLevel) stay subscribed; the service keeps updating the object's other property (gain) all along. Call/return stamps come from one logical clock at the client boundary. Oracle: porcupine checks the history against a register model (accepted set/update -> state, invalid or wrongly typed write -> must be an error and state unchanged, get -> current state without error); a valid write that is refused is a violation; each continuously subscribed reader must receive exactly the set of accepted values, each once (missing decided by the quiescence detector). Stream faulty-link: 2-5 subscribers (some cancel and subscribe again first; in a third of the histories the object's generic statistics are switched on) on own connections to a stand-alone server whose listener is wrapped by the harness; the link towards one of them starts refusing writes (reads stay open, the server sees no disconnection), or stalls in the middle of one fan-out while a subscriber registered after it cancels; every subscriber also listens to the signal tick, which the service emits now and then; a sequential mix of client writes, service-side updates (some of them writing the value that is already stored), refused writes and reads follows (in a third of the histories no link fails), possibly with a subscriber joining: every subscriber on a healthy link receives exactly the accepted values, in order; reads return the last accepted value (the outcome reported to the writer is not judged). Stream wide: the properties label (str) and spot (a structure) hold unique values of 10 B - 40 KiB written concurrently by 2-3 clients and 1-3 goroutines of the service over unix / tcp, with subscribers on own connections and a reader: valid writes accepted, refused ones report an error, reads return an intact written value, the final read is some writer's last accepted value, every subscriber gets each accepted value once, intact. Distinct non-trivial = distinct histories with at least two overlapping operations and one accepted write.")
 	var w *world
 	defer func() {
 		if w != nil {
@@ -159,6 +159,13 @@ func c14one(c *wk.Ctx, i int, rng *rand.Rand, w *world, name string) {
 			return
 		}
 		proxies[k] = p
+	}
+	// the numeric id of the property (generic property / setProperty accept it in place of the name)
+	var levelID uint32
+	for id, mp := range proxies[0].Proxy().MetaObject().Properties {
+		if mp.Name == "level" {
+			levelID = id
+		}
 	}
 	// subscribers
 	type reader struct {
@@ -260,11 +267,26 @@ func c14one(c *wk.Ctx, i int, rng *rand.Rand, w *world, name string) {
 						out = c14out{Err: true, Msg: errMsg(err)}
 					}
 					record(k, in, call, out)
+				case x < 9 && levelID != 0 && r.Intn(3) == 0:
+					// a valid write through the generic setProperty, the property named by its numeric id
+					in := c14in{Kind: "set", V: unique()}
+					call := now()
+					err := p.SetProperty(value.Uint(levelID), value.Int(in.V))
+					out := c14out{}
+					if err != nil {
+						out = c14out{Err: true, Msg: errMsg(err)}
+					}
+					record(k, in, call, out)
 				default:
 					val, desc := wrongTyped(r)
 					in := c14in{Kind: "settyped", Desc: desc}
 					call := now()
-					err := p.SetProperty(value.String("level"), val)
+					var name value.Value = value.String("level")
+					if levelID != 0 && r.Intn(2) == 0 {
+						name = value.Uint(levelID) // the property named by its numeric id
+						in.Desc += " by id"
+					}
+					err := p.SetProperty(name, val)
 					out := c14out{}
 					if err != nil {
 						out = c14out{Err: true, Msg: errMsg(err)}
